@@ -179,3 +179,16 @@ Example C18_macro_hyp_sat :
   expand false [KBrace [KExpr (VStr [97]); KColon; KBrack [KNull; KComma; KTrue; KComma]; KComma]]
     = Some (VObj [([97], VArr [VNull; VBool true])]).
 Proof. split; reflexivity. Qed.
+
+(* ---- which helper each comparand type goes through: the partialeq_numeric! groups of src/value/partial_eq.rs as TRANSLATED ON THIS RUN (tools/translate_eq.py) ---- *)
+From SJ Require Import Base.Bytes Model.Value Model.Pointer Gen.EqTables.
+From SJ Require Import Proofs.PointerEqSrc.
+Theorem C18_eq_routing_is_source : forall t v other,
+  eq_int t v other = match EQ_GROUP (eqty_of t) with
+                     | G_i64 => eq_i64 v other
+                     | G_u64 => eq_u64 v (Z.to_N other)
+                     | _ => false
+                     end.
+Proof. exact (@PointerEqSrc.eq_routing_is_source). Qed.
+Print Assumptions C18_eq_routing_is_source.
+
